@@ -380,6 +380,8 @@ def run_sampling_affine(out, ctx):
     for n in range(1, 5):
         for bshape in ((), (2,), (2, 3)):
             for rep in REPS_ALL:
+                if rep in NEW_REPS and bshape == (2, 3) and ctx["tier"] == "quick" and (NEW_REPS.index(rep) + n + seed) % 3:
+                    continue        # rank-2 batches of the structured operators: a rotating third per run
                 d, mean, cov = make(n, bshape, rep, seed=seed + 5)
                 case = dict(n=n, batch_shape=list(bshape), rep=rep)
                 nt = n > 1
@@ -1185,6 +1187,8 @@ def run_sequences(out, ctx):
             for r2 in SEQ_REPS:
                 if r1 == "lazybroadcast" and not bl:
                     continue
+                if tier == "quick" and bl != br and r2 not in ("root", "rootwide", "kron", "kronsum", "lowrankdiag", "rootsum"):
+                    continue        # broadcasting sums: structured right operands only (the others: run_broadcast)
                 desc = dict(what="sum-density", family="sum-density", pair="%s+%s" % (r1, r2), rep=r1, n=n, batch_shape=list(bl), index=len(chains),
                             steps=[])
                 try:
@@ -1354,8 +1358,10 @@ def run(out, ctx):
                 "log_prob on both paths, variance, rsample, covariance, entropy, precision, confidence region, KL; the first read x "
                 "representation x first operation are stratified), then EVERY object of the chain read completely and compared "
                 "with the Coq state machine (run_seq); sum-density probe: d1 + d2 for every ordered representation pair, read "
-                "completely (a right operand with a RootLinearOperator covariance is kept out of the sequences: known finding "
-                "C10-linear-operator-add-low-rank, reported by the probe).  "
+                "completely, structured pairs also after scaling by a negative number (a right operand with a RootLinearOperator "
+                "covariance and Kronecker + Kronecker sums are kept out of the random sequences: known findings "
+                "C10-linear-operator-add-low-rank / -sum-kronecker-scaled in the installed linear_operator, reported by the probe "
+                "under their own keys).  "
                 "non-trivial = valid index selecting >= 1 entry (indexing), n >= 2 (others), shapes differ (sweep)")
     out.extra["tolerances"] = {"gather / affine (exact copies, dyadic data)": 1e-12, "log_prob, KL (float64 Cholesky vs exact rational + mpmath)": 1e-8,
                                "rsample": 1e-9, "clamp (relative, per dtype)": DT_RTOL}
